@@ -659,9 +659,9 @@ def long_monotone_oracle(rng, n):
     history of the first k1 - 1 draws unchanged.  Returns (violations, runs)."""
     bad, runs = [], 0
     kinds = ["alpha_shrink", "bet_agrapa", "alpha_fixed", "bet_fixed", "alpha_shrink", "bet_agrapa"]
-    for i in range(n):
-        kind = kinds[i % len(kinds)]
-        cfg = gen_cfg(rng, kind=kind)
+    for i in list(range(n)) + [3 * j + 2 for j in range(12 * n)]:      # the short exact-total cases are cheap: many of them
+        kind = kinds[i % len(kinds)] if i < n else rng.choice(["alpha_fixed", "bet_fixed", "alpha_shrink", "bet_agrapa", "sprt"])
+        cfg = gen_cfg(rng, kind=kind, finite=(True if i >= n else None))
         cfg["long"] = "append"
         if kind == "alpha_shrink":
             cfg["p"]["f"] = rng.choice([F(0), F(1, 2), F(2), F(1, 8)])
@@ -670,6 +670,20 @@ def long_monotone_oracle(rng, n):
         if cfg["N"] is not None:
             cfg["N"] = k2 + rng.choice([0, 10, k2, 20 * k2])
         xs = long_xs(rng, cfg, k2)
+        if i % 3 == 2:
+            # a round that ends where the sample total EQUALS the null total N t (non-dyadic values, so the running sum
+            # carries rounding), followed by a round that appends only zeros
+            v = C.frac(float(rng.choice([F(1, 10), F(3, 10), F(6, 10), F(7, 10), F(1, 3), F(55, 100)]) * cfg["u"]))
+            k1 = rng.choice([9, 12, 17, 33, 50, 100, 129])
+            r = rng.randint(1, 8)
+            k2 = k1 + r
+            cfg["N"] = k2 + rng.choice([0, 0, 3])
+            cfg["t"] = C.frac(float(k1 * v / cfg["N"]))
+            if not (0 < cfg["t"] < cfg["u"]):
+                continue
+            if "eta" in cfg["p"]:
+                cfg["p"]["eta"] = C.frac(float(cfg["t"] + (cfg["u"] - cfg["t"]) * F(rng.randint(1, 8), 8)))
+            xs = [v] * k1 + [F(0)] * r
         a, b = run_impl(cfg, xs[:k1], variant=i), run_impl(cfg, xs, variant=i)
         runs += 2
         if a["exc"] or b["exc"] or math.isnan(a["p"]) or math.isnan(b["p"]):
